@@ -636,14 +636,14 @@ class Exec:
         self.fresh[0] += 1
         return tm.var(f"{stem}#{self.fresh[0]}", sort)
 
-    def note_write(self, target):
+    def note_write(self, target, masked=False):
         """a store into `target`: counts as a heap effect of the current (nested) call only when the
         object existed before the call started"""
         base = target
         while isinstance(base, ArrV) and base.view_of is not None:
             base = base.view_of[0]
         if isinstance(base, (ArrV, TableV, RecArrV)) and stamp_of(base) <= getattr(self, "arg_stamp", -1):
-            ARG_DATA_WRITES.append(getattr(base, "name", None) or getattr(base, "srcname", None) or type(base).__name__)
+            ARG_DATA_WRITES.append((getattr(base, "name", None) or getattr(base, "srcname", None) or type(base).__name__) + (" [masked store]" if masked else ""))
         if stamp_of(base) <= self.entry_stamp:
             self.heap_writes += 1
             if getattr(base, "is_module_state", False) or id(base) in MODULE_STATE:
@@ -1171,7 +1171,7 @@ class Exec:
             o = self.eval(tg.value)
             idx = self.eval_index(tg.slice)
             self.eng.lib.setitem(self, o, idx, v)
-            self.note_write(o)
+            self.note_write(o, masked=(isinstance(idx, ArrV) and idx.dtype == "b"))
         else:
             raise OutOfSubset(f"assignment target {type(tg).__name__}")
 
